@@ -16,7 +16,9 @@ import SLModel.Core.Frontend
   commits (`denote_effect`, `script_effect`), hence two scripts — through any mixture of front
   ends — with the same abstract history leave the same contents (`frontends_agree`); the
   front ends' different reactions to a rejected document are pinned down by
-  `http_add_invalid_drops_log`, `cli_add_invalid_keeps_prefix`, `ffi_add_invalid_noop`.
+  `http_add_invalid_keeps_log` (a rejected HTTP batch changes nothing — the code after 69e89dd;
+  `legacy_http_add_invalid_drops_log` documents the whole-log rollback before it),
+  `cli_add_invalid_keeps_prefix`, `ffi_add_invalid_noop`.
 
 That the real front ends have these denotations, and that search results coincide, is
 established by the harness runs (library vs HTTP vs FFI vs CLI binary), not by proof.
@@ -326,6 +328,25 @@ theorem run_adds_failed (docs : List δ) (s : St κ δ) (hf : s.failed = true) :
     have : step idOf s (.add d) = s := by simp [step, hf]
     simpa [run, List.foldl_cons, this] using ih
 
+/-- `add_documents` with every document accepted = the adds one by one -/
+theorem step_addBatch_valid (docs : List δ) (s : St κ δ) (hf : s.failed = false)
+    (hv : ∀ d ∈ docs, (idOf d).isSome) :
+    step idOf s (.addBatch docs) = { s with log := s.log ++ putsOf idOf docs } := by
+  have hall : docs.all (fun d => (idOf d).isSome) = true := by
+    simpa [List.all_eq_true] using hv
+  simp [step, hf, hall, putsOf]
+
+/-- `add_documents` with a rejected document queues nothing -/
+theorem step_addBatch_invalid (docs : List δ) (d : δ) (s : St κ δ) (hf : s.failed = false)
+    (hd : d ∈ docs) (hn : idOf d = none) :
+    step idOf s (.addBatch docs) = { s with failed := true } := by
+  have hall : docs.all (fun d => (idOf d).isSome) = false := by
+    rw [Bool.eq_false_iff]
+    intro h
+    have := (List.all_eq_true.mp h) d hd
+    simp [hn] at this
+  simp [step, hf, hall]
+
 /-- **denotation, accepted documents**: the library calls of one front-end operation have
 exactly the effect "append its upserts/deletes to the log, then commit if it commits" -/
 theorem denote_effect (op : FrontOp κ δ) (s : St κ δ) (hf : s.failed = false)
@@ -359,20 +380,21 @@ theorem denote_effect (op : FrontOp κ δ) (s : St κ δ) (hf : s.failed = false
     rw [h]
     simp [refStep, commits, logOf]
   | httpBulk docs =>
-    have h := run_adds_valid idOf docs ⟨c, l, false⟩ rfl hv
-    simp only [denote, List.append_assoc, run_append]
-    simp only [run, List.foldl_cons, List.foldl_nil, step] at h ⊢
-    rw [h]
-    simp [refStep, commits, logOf]
+    have h := step_addBatch_valid idOf docs ⟨c, l, false⟩ rfl hv
+    simp only [denote, run, List.foldl_cons, List.foldl_nil]
+    have h0 : step idOf ⟨c, l, false⟩ .newWriter = ⟨c, l, false⟩ := rfl
+    rw [h0, h]
+    simp [step, refStep, commits, logOf]
   | httpAdd docs =>
     cases docs with
     | nil => simp [denote, run, refStep, commits, logOf, putsOf]
     | cons d ds =>
-      have h := run_adds_valid idOf (d :: ds) ⟨c, l, false⟩ rfl hv
-      simp only [denote, List.isEmpty_cons, Bool.false_eq_true, if_false, List.append_assoc, run_append]
-      simp only [run, List.foldl_cons, List.foldl_nil, step] at h ⊢
-      rw [h]
-      simp [refStep, commits, logOf]
+      have h := step_addBatch_valid idOf (d :: ds) ⟨c, l, false⟩ rfl hv
+      simp only [denote, List.isEmpty_cons, Bool.false_eq_true, if_false, run, List.foldl_cons,
+        List.foldl_nil]
+      have h0 : step idOf ⟨c, l, false⟩ .newWriter = ⟨c, l, false⟩ := rfl
+      rw [h0, h]
+      simp [step, refStep, commits, logOf]
   | ffiAdd d =>
     obtain ⟨id, hid⟩ := Option.isSome_iff_exists.mp (hv d (by simp [docsOf]))
     simp [denote, run, step, refStep, commits, logOf, putsOf, hid]
@@ -426,23 +448,47 @@ theorem run_adds_split (pre post : List δ) (d : δ) (s : St κ δ) (hf : s.fail
   rw [this]
   exact run_adds_failed idOf post _ rfl
 
-/-- HTTP `/add`, `/bulk`: one rejected document rolls back the *whole* pending log —
-including what earlier requests had queued (the mechanism behind C23's finding) -/
-theorem http_add_invalid_drops_log (pre post : List δ) (d : δ) (s : St κ δ)
+/-- **HTTP `/add`, `/bulk` (after 69e89dd): a rejected batch leaves the state unchanged** —
+nothing of the batch is queued and what earlier requests had queued stays queued -/
+theorem http_add_invalid_keeps_log (pre post : List δ) (d : δ) (s : St κ δ) (hd : idOf d = none) :
+    run idOf s (denote (.httpBulk (pre ++ d :: post))) = ⟨s.committed, s.log, false⟩ ∧
+    run idOf s (denote (.httpAdd (pre ++ d :: post))) = ⟨s.committed, s.log, false⟩ := by
+  have hmem : d ∈ pre ++ d :: post := by simp
+  have h := step_addBatch_invalid idOf (pre ++ d :: post) d { s with failed := false } rfl hmem hd
+  have hne : (pre ++ d :: post).isEmpty = false := by cases pre <;> rfl
+  constructor
+  · simp only [denote, run, List.foldl_cons, List.foldl_nil]
+    have h0 : step idOf s .newWriter = { s with failed := false } := rfl
+    rw [h0, h]
+    rfl
+  · simp only [denote, hne, Bool.false_eq_true, if_false, run, List.foldl_cons, List.foldl_nil]
+    have h0 : step idOf s .newWriter = { s with failed := false } := rfl
+    rw [h0, h]
+    rfl
+
+/-- before 69e89dd — HTTP `/add`, `/bulk`: one rejected document rolled back the *whole*
+pending log, including what earlier requests had queued (the mechanism behind C23's finding) -/
+theorem legacy_http_add_invalid_drops_log (pre post : List δ) (d : δ) (s : St κ δ)
     (hpre : ∀ x ∈ pre, (idOf x).isSome) (hd : idOf d = none) :
-    run idOf s (denote (.httpBulk (pre ++ d :: post))) = ⟨s.committed, [], false⟩ ∧
-    run idOf s (denote (.httpAdd (pre ++ d :: post))) = ⟨s.committed, [], false⟩ := by
+    run idOf s (denoteLegacy (.httpBulk (pre ++ d :: post))) = ⟨s.committed, [], false⟩ ∧
+    run idOf s (denoteLegacy (.httpAdd (pre ++ d :: post))) = ⟨s.committed, [], false⟩ := by
   have h := run_adds_split idOf pre post d { s with failed := false } rfl hpre hd
   have hne : (pre ++ d :: post).isEmpty = false := by cases pre <;> rfl
   constructor
-  · simp only [denote, List.append_assoc, run_append]
+  · simp only [denoteLegacy, List.append_assoc, run_append]
     simp only [run, List.foldl_cons, List.foldl_nil, step] at h ⊢
     rw [h]
     simp
-  · simp only [denote, hne, Bool.false_eq_true, if_false, List.append_assoc, run_append]
+  · simp only [denoteLegacy, hne, Bool.false_eq_true, if_false, List.append_assoc, run_append]
     simp only [run, List.foldl_cons, List.foldl_nil, step] at h ⊢
     rw [h]
     simp
+
+omit [DecidableEq κ] in
+/-- the legacy denotation differs from the current one on HTTP add/bulk only -/
+theorem denoteLegacy_eq (op : FrontOp κ δ)
+    (h : ∀ docs, op ≠ .httpAdd docs ∧ op ≠ .httpBulk docs) : denoteLegacy op = denote op := by
+  cases op <;> first | rfl | (rename_i docs; exact absurd rfl (h docs).1) | (rename_i docs; exact absurd rfl (h docs).2)
 
 /-- CLI `add`: the documents before the rejected one stay queued -/
 theorem cli_add_invalid_keeps_prefix (pre post : List δ) (d : δ) (s : St κ δ)
@@ -479,7 +525,8 @@ example :
   decide
 
 example :
-    run idOfNat (⟨[], [.put 5 15], false⟩ : St Nat Nat) (denote (.httpBulk [11, 0, 12])) = ⟨[], [], false⟩ ∧
+    run idOfNat (⟨[], [.put 5 15], false⟩ : St Nat Nat) (denote (.httpBulk [11, 0, 12])) = ⟨[], [.put 5 15], false⟩ ∧
+    run idOfNat (⟨[], [.put 5 15], false⟩ : St Nat Nat) (denoteLegacy (.httpBulk [11, 0, 12])) = ⟨[], [], false⟩ ∧
     run idOfNat (⟨[], [.put 5 15], false⟩ : St Nat Nat) (denote (.cliAdd [11, 0, 12])) =
       ⟨[], [.put 5 15, .put 1 11], false⟩ := by
   decide
